@@ -38,5 +38,5 @@ CHECKER_MODULES = ["Spdc.Real.PM", "Spdc.Real.PlaneWave"]
 
 def families(tier, seed):
     if tier == "quick":
-        return [("pm", seed, 600, ["k"]), ("pm", seed, 500, ["c05"])]
+        return [("pm", seed, 1500, ["k"]), ("pm", seed, 1500, ["c05"])]
     return [("pm", seed, 6000, ["k"]), ("pm", seed + 1000, 6000, ["k"]), ("pm", seed, 6000, ["c05"])]
